@@ -18,11 +18,15 @@ Open Scope Z_scope.
 Inductive input :=
 | InKept (grid : list Z) (k : Z)
 | InSelect (times clusters grid : list Z) (k : Z) (n : option Z) (req : list Z)
-           (sub_chunks : bool) (sub : option (list Z)).
+           (sub_chunks : bool) (sub : option (list Z))
+(* TemplateModel.save_spikes_subset_waveforms on a loaded dataset: spike_samples, spike_templates,
+   traces.chunk_bounds as loaded, max_n_spikes_per_template *)
+| InRoute (samples templates grid : list Z) (nst : Z).
 
 Inductive observed :=
 | ObsKept (kept : list Z)
 | ObsSelect (kept : list Z) (results : list (list Z))   (* one result per NumPy seed *)
+| ObsRoute (results : list (list Z))                     (* saved spike ids, one per NumPy seed *)
 | ObsCrash.
 
 Record case := { cid : Z; cin : input; cobs : observed }.
@@ -60,6 +64,26 @@ Definition check (c : case) : list Z :=
           flag 24 (all (cl24_chunk times ivs sc)) ++
           flag 25 (all (cl25_subset sub)) ++
           flag 26 (all (cl26_count times clusters ivs sc sub n req))
+      | _ => [1; 26]
+      end
+  | InRoute samples templates grid nst, o =>
+      if negb (grid_ok grid 1 && (zlen samples =? zlen templates) && (1 <=? nst)) then [3] else
+      match o with
+      | ObsRoute rs =>
+          let ivs := match chunks_kept grid n_chunks_kept_route with
+                     | Some kept => match unflat kept with Some l => l | None => [] end
+                     | None => [] end in
+          let n := Some nst in
+          let req := unique templates in
+          let determined :=
+            forallb (fun c => negb (subsamples n (zlen (elig samples templates ivs true None c)))) req in
+          let model := route choose0 samples templates grid nst in
+          let all (f : list Z -> bool) := forallb f rs in
+          flag 1 (negb determined || all (opt_eqb model)) ++
+          flag 22 (all (cl22_sorted)) ++
+          flag 23 (all (cl23_cluster templates req)) ++
+          flag 24 (all (cl24_chunk samples ivs true)) ++
+          flag 26 (all (cl26_count samples templates ivs true None n req))
       | _ => [1; 26]
       end
   end.
